@@ -229,6 +229,78 @@ func (s *sBridge) Deliver(d []byte) bool             { _, err := s.w.Write(d); r
 func (s *sBridge) ReadFrame() string                 { return "test.(*bridgeConn).Read" }
 func (s *sBridge) Close()                            { close(s.stop) }
 
+// sVnetConn: a connected vnet socket (DialUDP towards the peer). A third host, the stranger, sends datagrams to the
+// socket's address as well; a connected socket discards them, so for the reader they are no data at all: they must not
+// be returned and must not keep a read from noticing its deadline.
+type sVnetConn struct {
+	*sVnet
+	stranger     net.PacketConn
+	strangerAddr *net.UDPAddr
+	smarks       chan struct{}
+}
+
+func newVnetConn() (*sVnetConn, error) {
+	rt, err := vnet.NewRouter(&vnet.RouterConfig{CIDR: "10.7.0.0/24", LoggerFactory: vn.Silent()})
+	if err != nil {
+		return nil, err
+	}
+	var nets []*vnet.Net
+	for _, ip := range []string{"10.7.0.1", "10.7.0.2", "10.7.0.3"} {
+		n, _ := vnet.NewNet(&vnet.NetConfig{StaticIPs: []string{ip}})
+		if err := rt.AddNet(n); err != nil {
+			return nil, err
+		}
+		nets = append(nets, n)
+	}
+	if err := rt.Start(); err != nil {
+		return nil, err
+	}
+	cc, err := nets[0].DialUDP("udp", vn.UDP("10.7.0.1", 4000), vn.UDP("10.7.0.2", 4000))
+	if err != nil {
+		return nil, err
+	}
+	p, err := nets[1].ListenUDP("udp", vn.UDP("10.7.0.2", 4000))
+	if err != nil {
+		return nil, err
+	}
+	st, err := nets[2].ListenUDP("udp", vn.UDP("10.7.0.3", 4000))
+	if err != nil {
+		return nil, err
+	}
+	s := &sVnetConn{sVnet: &sVnet{rt: rt, c: cc.(net.PacketConn), peer: p, peerAddr: vn.UDP("10.7.0.2", 4000), dst: vn.UDP("10.7.0.1", 4000), marks: make(chan struct{}, 64)},
+		stranger: st, strangerAddr: vn.UDP("10.7.0.3", 4000), smarks: make(chan struct{}, 64)}
+	pump := func(c net.PacketConn, ch chan struct{}) {
+		buf := make([]byte, 64)
+		for {
+			if _, _, err := c.ReadFrom(buf); err != nil {
+				return
+			}
+			ch <- struct{}{}
+		}
+	}
+	go pump(p, s.marks)
+	go pump(st, s.smarks)
+	return s, nil
+}
+
+// Noise: a stranger's datagram to the connected socket, confirmed to sit in (or to have passed) its queue by a marker
+// through the same router queue.
+func (s *sVnetConn) Noise() bool {
+	if _, err := s.stranger.WriteTo([]byte("noise-from-a-stranger"), s.dst); err != nil {
+		return false
+	}
+	if _, err := s.stranger.WriteTo([]byte("m"), s.strangerAddr); err != nil {
+		return false
+	}
+	select {
+	case <-s.smarks:
+		return true
+	case <-time.After(5 * time.Second):
+		return false
+	}
+}
+func (s *sVnetConn) Close() { s.stranger.Close(); s.sVnet.Close() }
+
 func newSubject(name string) (subject, error) {
 	switch name {
 	case "buffer":
@@ -242,6 +314,8 @@ func newSubject(name string) (subject, error) {
 		return newUDPListenerClosed()
 	case "vnet":
 		return newVnet()
+	case "vnet-conn":
+		return newVnetConn()
 	case "bridge":
 		return newBridge(), nil
 	}
@@ -449,6 +523,14 @@ func runScript(sc *script, r *res.Result) (string, string, int) {
 			}
 		case "idle":
 			time.Sleep(time.Duration(o.Ms) * time.Millisecond)
+		case "noise":
+			// not data for the reader: the model does not change
+			if nz, ok := sub.(interface{ Noise() bool }); ok {
+				if !nz.Noise() {
+					return "", "inconclusive: noise not confirmed", i
+				}
+				r.Count("noise_datagrams_to_connected_socket", 1)
+			}
 		case "deliver":
 			if !deliver() {
 				return "", "inconclusive: deliver not confirmed", i
@@ -606,6 +688,17 @@ func genScript(rng *rand.Rand, subj string) *script {
 			sc.Ops = append(sc.Ops, op{K: "park", X: []string{"past", "near", "deliver", "near-zero-deliver", "far-deliver", "zero-past", "far-zero-near"}[rng.Intn(7)], Ms: 2 + rng.Intn(10)})
 		}
 	}
+	if subj == "vnet-conn" {
+		// a stranger's datagram in front of about every second read / park, and sometimes elsewhere
+		var ops []op
+		for _, o := range sc.Ops {
+			if (o.K == "read" || o.K == "park") && rng.Intn(2) == 0 || rng.Intn(8) == 0 {
+				ops = append(ops, op{K: "noise"})
+			}
+			ops = append(ops, o)
+		}
+		sc.Ops = ops
+	}
 	// directed patterns
 	switch rng.Intn(8) {
 	case 0: // expires unobserved, then extended, then data
@@ -634,7 +727,7 @@ func main() {
 	flag.Parse()
 	_ = nshard
 	r := res.New("C10")
-	r.Rule = "scripts over {Set zero, Set past, Set near(+2..20ms), Set far(+1h), Idle 275ms, Deliver, Read, Park-then-{past,near,deliver,near+zero+deliver,far+deliver,zero+past,far+zero+near}} on six subjects (packetio.Buffer, dpipe, udp.Conn over loopback, udp.Conn whose listener has been closed, vnet UDPConn through a router, Bridge endpoint with a Tick loop); oracle: timeout legal iff a non-zero deadline in force during the read had passed; data illegal iff the deadline had observably passed before the call (set in the past, or >=200ms ago with a canary timer fired); a read that must be released (confirmed data / deadline passed >1s ago + canary) and is parked in the subject's Read (3 samples) is a violation; plus, on packetio.Buffer and dpipe, a phase that extends or clears a 300 us deadline at instants swept across its expiry and then reads a delivered message (a timeout is illegal however the race went); distinct = (subject, deadline kind, data pending, outcome) cells"
+	r.Rule = "scripts over {Set zero, Set past, Set near(+2..20ms), Set far(+1h), Idle 275ms, Deliver, Read, Park-then-{past,near,deliver,near+zero+deliver,far+deliver,zero+past,far+zero+near}} on seven subjects (packetio.Buffer, dpipe, udp.Conn over loopback, udp.Conn whose listener has been closed, vnet UDPConn through a router, a connected vnet UDPConn that also gets datagrams from a stranger which it has to discard, Bridge endpoint with a Tick loop); oracle: timeout legal iff a non-zero deadline in force during the read had passed; data illegal iff the deadline had observably passed before the call (set in the past, or >=200ms ago with a canary timer fired); a read that must be released (confirmed data / deadline passed >1s ago + canary) and is parked in the subject's Read (3 samples) is a violation; plus, on packetio.Buffer and dpipe, a phase that extends or clears a 300 us deadline at instants swept across its expiry and then reads a delivered message (a timeout is illegal however the race went); distinct = (subject, deadline kind, data pending, outcome) cells"
 	r.Assumptions = []string{"interval reasoning on stamps taken before the call and after the return; scheduling delay can only make a legal timeout look later, never earlier", "reads that start within 200ms after a near deadline are unconstrained (expiry is delivered by a runtime timer)"}
 	if *replay != "" {
 		b, _ := os.ReadFile(*replay)
@@ -658,7 +751,7 @@ func main() {
 	if *tier == "thorough" {
 		n = 240
 	}
-	subjects := []string{"buffer", "dpipe", "udp", "udp-lclosed", "vnet", "bridge"}
+	subjects := []string{"buffer", "dpipe", "udp", "udp-lclosed", "vnet", "vnet-conn", "bridge"}
 	rng := rand.New(rand.NewSource(*seed*811 + int64(*shard)*53 + 29))
 	var mu sync.Mutex
 	seen := map[string]int{}
